@@ -563,10 +563,10 @@ def execute(run, cov, log):
 # --------------------------------------------------------------------------
 # generation
 # --------------------------------------------------------------------------
-def gen_history(rng, curve, n_target, graded=False, time=None):
+def gen_history(rng, curve, n_target, graded=False, time=None, space=None):
     """Seeded bisection history on a scratch mesh (generation time only)
     reaching about n_target leaves."""
-    config = {'kind': 'param', 'curve': curve, 'space': None, 'time': time}
+    config = {'kind': 'param', 'curve': curve, 'space': space, 'time': time}
     case = meshsim.MeshCase(config)
     if curve == 'LShape':
         for e in list(case.mesh.leaf_elements):
